@@ -126,7 +126,8 @@ AddLayout ==
           /\ out[pos + 1].l = 0 /\ out[pos + 1].k # "dol" /\ out[pos].k # "format"
           /\ ~\E j \in 1..Len(ed) : ed[j].pos \in {pos, pos + 1} /\ ed[j].t \in {"brk", "join", "cmt"}
           /\ ~\E j \in 1..Len(ed) : ed[j].pos = pos - 1 /\ ed[j].t = "join"
-          /\ ed' = Append(ed, E("join", pos, 0, 0))
+          \* a > 0: a trailing comment of class a behind the two statements (delivered after the second one)
+          /\ \E a \in (IF "cmt" \in PKinds THEN 0..NCmtCls ELSE {0}) : ed' = Append(ed, E("join", pos, a, 0))
   \/ /\ "case" \in PKinds /\ ~\E j \in 1..Len(ed) : ed[j].t = "case"
      /\ \E a \in {1, 2} : ed' = Append(ed, E("case", 0, a, 0))
 
@@ -198,7 +199,8 @@ StillValid == ~ParEdit /\ Accepts(Edited)
 \* sequence of leaves expected in the tree when comments are kept (C11) / directives (C14):
 \* <<"s", i>> statement i ; <<"e", j>> the line(s) of edit j
 EdsAt(pos, places) == SelectSeq([j \in 1..Len(ed) |-> j],
-                         LAMBDA j : ed[j].pos = pos /\ ((ed[j].t = "cmt" /\ ed[j].a \in places) \/ (ed[j].t = "cpp" /\ 1 \in places)))
+                         LAMBDA j : \/ ed[j].pos = pos /\ ((ed[j].t = "cmt" /\ ed[j].a \in places) \/ (ed[j].t = "cpp" /\ 1 \in places))
+                                    \/ ed[j].t = "join" /\ ed[j].a > 0 /\ ed[j].pos = pos - 1 /\ 2 \in places)
 RECURSIVE Leaves(_)
 Leaves(i) == IF i > N THEN [j \in 1..Len(EdsAt(N + 1, {1})) |-> <<"e", EdsAt(N + 1, {1})[j]>>]
              ELSE [j \in 1..Len(EdsAt(i, {1})) |-> <<"e", EdsAt(i, {1})[j]>>] \o << <<"s", i>> >>
